@@ -353,6 +353,13 @@ def run_traffic(sc):
                 res['late'] = 'sent'
             except Exception as e:
                 res['late'] = exc_name(e)
+            # the same for operations with class-level capability prerequisites and for close_session itself
+            for key, fn in (('late_commit', lambda: m.commit()), ('late_discard', lambda: m.discard_changes()), ('late_close', lambda: m.close_session())):
+                try:
+                    fn()
+                    res[key] = 'returned'
+                except Exception as e:
+                    res[key] = exc_name(e)
             res['worker_alive_after_fault'] = sess.is_alive()
         else:
             try:
@@ -622,6 +629,12 @@ def run_lifecycle(sc):
             res['later_request'] = 'sent'
         except Exception as e:
             res['later_request'] = exc_name(e)
+        for key, fn in (('later_commit', lambda: m.commit()), ('later_validate', lambda: m.validate('candidate'))):
+            try:
+                fn()
+                res[key] = 'sent'
+            except Exception as e:
+                res[key] = exc_name(e)
         if sc.get('inflight'):
             th.join(3)
             res['inflight'] = inflight
@@ -632,3 +645,63 @@ def run_lifecycle(sc):
         hold.set()
         srv.cleanup()
     return res
+
+
+@connect_restoring_ids
+def run_stall(case):
+    """The peer stays connected but stops reading while a message larger than the socket buffers is being written; then a burst of
+    small asynchronous requests, then a SYNCHRONOUS request with a short timeout.  Nothing may block for ever: the session must fail
+    (error to the pending requests, disconnected) and the synchronous call must return or raise within its timeout."""
+    sc = {'transport': case['transport'], 'profile': 'default'}
+    srv = make_server(sc, None)
+    try:
+        m = connect(srv, sc, timeout=case['timeout'])
+        srv.stop_reading.set()
+        time.sleep(0.05)
+        m.async_mode = True
+        big = new_ele('big')
+        big.text = 'x' * case['size']
+        t0 = time.time()
+        r = m.dispatch(big)
+        small = m.dispatch(new_ele('after'))
+        burst = {'accepted': 0, 'blocked': False}
+
+        def many():
+            for i in range(case.get('burst', 0)):
+                try:
+                    m.dispatch(new_ele('b%d' % i))
+                    burst['accepted'] += 1
+                except Exception:
+                    break
+        st, _, bdt = FS.run_with_timeout(many, 5)
+        burst['blocked'] = st == 'hang'
+        sync = None
+        if case.get('sync_timeout'):
+            m.async_mode = False
+            m.timeout = case['sync_timeout']
+
+            def call():
+                try:
+                    m.get_config(source='running')
+                    return 'reply'
+                except Exception as e:
+                    return exc_name(e)
+            st, v, sdt = FS.run_with_timeout(call, case['sync_timeout'] + 6)
+            sync = {'state': st, 'out': v, 'dt': sdt}
+            m.async_mode = True
+        deadline = t0 + case['timeout'] + 8
+        while time.time() < deadline and (m.connected or not r.event.is_set()):
+            time.sleep(0.02)
+        res = {'connected': m.connected, 'failed': r.event.is_set() and r.error is not None, 'error': type(r.error).__name__ if r.error is not None else None,
+               'second_failed': small.event.is_set() and small.error is not None, 'dt': time.time() - t0, 'worker_alive': m._session.is_alive(),
+               'burst': burst, 'sync': sync}
+        srv.stop_reading.clear()
+        try:
+            m._session.close()
+        except Exception:
+            pass
+        return res
+    except Exception as e:
+        return {'harness_error': type(e).__name__ + ': ' + str(e)[:100]}
+    finally:
+        srv.cleanup()
